@@ -303,7 +303,7 @@ class Oracle:
         self._saved = dict(cs=T.Tx.check_sig_segwit, cl=T.Tx.check_sig_legacy, vi=T.Tx.verify_input,
                            vd=P.NamedHDPublicKey.verify_descendent, gs=T.Tx.get_sig_segwit, gl=T.Tx.get_sig_legacy,
                            tv=T.Tx.verify, pp=S256Point.__dict__["parse"], sp=Signature.__dict__["parse"],
-                           tr=HDM.HDPublicKey.traverse)
+                           tr=HDM.HDPublicKey.traverse, ch=HDM.HDPublicKey.child)
         sv = self._saved
         pp, sp = sv["pp"].__func__, sv["sp"].__func__
 
@@ -345,6 +345,15 @@ class Oracle:
             r = _memo(k, lambda: sv["vi"](self, i))
             o.ver[i] = bool(r)
             return r
+
+        def child(self, index):
+            # HDPublicKey.child is pure: remember the derived key material, hand out a fresh object
+            def go():
+                c = sv["ch"](self, index)
+                return (c.point.x.num, c.point.y.num, c.chain_code, c.depth, c.parent_fingerprint, c.child_number)
+            x, y, cc, depth, pfp, cn = _memo(("ch", xpub_body(self), index), go)
+            return HDM.HDPublicKey(point=S256Point(x, y), chain_code=cc, depth=depth, parent_fingerprint=pfp,
+                                   child_number=cn, network=self.network, pub_version=self.pub_version)
 
         def derive_real(hd, idxs):
             def go():
@@ -402,6 +411,7 @@ class Oracle:
         T.Tx.check_sig_segwit, T.Tx.check_sig_legacy, T.Tx.verify_input = check_sig_segwit, check_sig_legacy, verify_input
         P.NamedHDPublicKey.verify_descendent = verify_descendent
         HDM.HDPublicKey.traverse = traverse
+        HDM.HDPublicKey.child = child
         T.Tx.get_sig_segwit, T.Tx.get_sig_legacy, T.Tx.verify = get_sig_segwit, get_sig_legacy, verify
         S256Point.parse = classmethod(point_parse)
         Signature.parse = classmethod(sig_parse)
@@ -417,6 +427,7 @@ class Oracle:
         T.Tx.check_sig_segwit, T.Tx.check_sig_legacy, T.Tx.verify_input = sv["cs"], sv["cl"], sv["vi"]
         P.NamedHDPublicKey.verify_descendent = sv["vd"]
         HDM.HDPublicKey.traverse = sv["tr"]
+        HDM.HDPublicKey.child = sv["ch"]
         T.Tx.get_sig_segwit, T.Tx.get_sig_legacy, T.Tx.verify = sv["gs"], sv["gl"], sv["tv"]
         S256Point.parse = sv["pp"]
         Signature.parse = sv["sp"]
